@@ -1405,14 +1405,18 @@ def routinePart (name : String) (withParams : Bool) (body : M Unit) : M Unit := 
   -- the body's result is returned after `END` and `exit_routine()`
   andFinally body (finishRoutine name)
 
+/-- `_already_defined`: the name is a routine (built-in or the script's) or a macro -/
+def St.alreadyDefined (st : St) (n : String) : Bool := st.hasRoutine n || (st.getMacro n).isSome
+
 /-- `_definition` after the name -/
 def definitionRest (name : String) (body : M Unit) : M Unit := do
   let st ← getSt
   if st.detectRoutineStart then
-    if st.hasRoutine name then tokenError "Already defined: \"" "\""
+    if st.alreadyDefined name then tokenError "Already defined: \"" "\""
     -- `_routine_definition`
     else if st.inRoutine then triggerError "Nested definition not allowed."
     else routinePart name (st.cur.ty == .with_) body
+  else if st.alreadyDefined name then triggerError ("Already defined: \"" ++ name ++ "\"")
   else macroDefinition name
 
 /-- `_definition` after the keyword -/
